@@ -21,6 +21,7 @@
 #     STREAM = comma separated naturals or `-`; REST = answers left unused; NS = the n's asked, run-length coded (`2x148`)
 # Oracle side (real code only): tr.sel.tx|rx OPS SELECTORS LEGACY <msg>, tr.real.tx|rx VER SEED COUNT ORDER LEGACY WANT
 #     -> per message: <msg> | validate() outcome | TxMsg()/RxMsg().parse_msg(msg.gen_msg(legacy)) | draws n:k,...
+from excname import exc_name
 import sys, os
 sys.dont_write_bytecode = True
 sys.path.insert(0, os.path.dirname(os.path.abspath(__file__)))
@@ -167,7 +168,7 @@ def outcome(f):
     except AssertionError:
         raise
     except Exception as e:
-        return type(e).__name__, None
+        return exc_name(e), None
 
 
 def show(m):
@@ -267,7 +268,7 @@ def main():
         try:
             out.append(handle_oracle(tok) if (tok[0].startswith("tr.sel.") or tok[0].startswith("tr.real.")) else handle_model(tok))
         except Exception as e:
-            out.append("EXC " + type(e).__name__)
+            out.append("EXC " + exc_name(e))
         if len(out) >= 512:
             sys.stdout.write("\n".join(out) + "\n")
             out = []
